@@ -1,5 +1,5 @@
 SPECIFICATION MCSpec
-CONSTANTS Keys = {1, 2, 3}
+CONSTANTS Keys = {1, 2, 3, 4}
           Vals = {1, 2}
           Maxes = {0, 1, 2, 3}
           MaxVal = 2
@@ -8,6 +8,7 @@ CONSTANTS Keys = {1, 2, 3}
           Rej = TRUE
           EK = 1
 VIEW View
+ACTION_CONSTRAINT DumpT
 INVARIANTS Bounded NoDup DomOK SetOK RefuseOK
 PROPERTIES FirstAtHead LastAtTail PlainAppends PlainKeeps UpdateKeepsKeys OthersKeepOrder EvictOpposite NoOverNeverEvicts SortPermutes RemoveExact PutThenGet LRUMoves
 CHECK_DEADLOCK FALSE
